@@ -157,7 +157,10 @@ def write_effect(p, r):
     v = r["value"]
     n = r.get("count")
     if isbool:
-        if n is None:
+        if n is None or (n == 1 and bi is not None):
+            # one element of a BOOL array, also when asked for as a slice of one ({1}, value a one-element list as for other arrays)
+            if n == 1 and isinstance(v, (list, tuple)):
+                v = v[0]
             byte = loc.offset + bi // 8
             bit = bi % 8
             return {"key": key, "start": byte, "data": bytes([(1 << bit) if v else 0]), "care": bytes([1 << bit]),
